@@ -64,6 +64,7 @@ type Deferred struct {
 }
 
 type DynCall struct {
+	Desc string
 	Site int
 	Fn   Val
 	Args []Val
@@ -80,6 +81,7 @@ type State struct {
 	wf      map[string]bool
 	calls   map[string]int // call counts of tracked functions (concrete counts along this path)
 	callRes map[string][]Val
+	callArgs map[string][][]Val
 	focused map[int]bool
 	callLog []string
 	path    []string
@@ -153,6 +155,10 @@ func (st *State) clone() *State {
 	n.callRes = make(map[string][]Val, len(st.callRes))
 	for k, v := range st.callRes {
 		n.callRes[k] = append([]Val(nil), v...)
+	}
+	n.callArgs = make(map[string][][]Val, len(st.callArgs))
+	for k, v := range st.callArgs {
+		n.callArgs[k] = append([][]Val(nil), v...)
 	}
 	n.focused = make(map[int]bool, len(st.focused))
 	for k, v := range st.focused {
@@ -697,7 +703,7 @@ func (x *Exec) callModifies(c *ssa.CallCommon, mods map[string]bool) bool {
 		return false
 	}
 	if c.IsInvoke() {
-		if ms := x.methodSpec(c); ms != nil && ms.Mode == "fn" {
+		if ms := x.methodSpec(c); ms != nil && (ms.Mode == "fn" || ms.Mode == "log" || ms.Mode == "dispatch") {
 			return false
 		}
 		return true
@@ -876,6 +882,17 @@ func (x *Exec) emit(st *State, kind, name string, c Clause, goal string) {
 					continue
 				}
 				x.emit(st, kind, fmt.Sprintf("%s#%d", name, i+1), c, part.String())
+			}
+			return
+		}
+	}
+	if strings.HasPrefix(goal, "(=> ") {
+		if sx, err := parseSX(goal); err == nil && len(sx.List) == 3 && sx.List[2].Head() == "and" && len(sx.List[2].List) > 2 {
+			for i, part := range sx.List[2].List[1:] {
+				if part.String() == "true" {
+					continue
+				}
+				x.emit(st, kind, fmt.Sprintf("%s#%d", name, i+1), c, "(=> "+sx.List[1].String()+" "+part.String()+")")
 			}
 			return
 		}
